@@ -181,7 +181,7 @@ mut("swap_assert_late", L, """        assert!(i < self.size, "i index out-of-bou
         assert!(j < self.size, "j index out-of-bounds");""", ["C11:PAN3"])
 mut("to_vec_expect", L, """        vec.extend(self.iter().cloned());""", """        vec.extend(self.iter().cloned());
         let _first = self.front().expect("non-empty");""", ["C11:PAN1"])
-mut("as_mut_slices_swapped", L, """        unsafe { (slice_assume_init_mut(front), slice_assume_init_mut(back)) }""", """        unsafe { (slice_assume_init_mut(back), slice_assume_init_mut(front)) }""", ["C07:TWIN"])
+mut("as_mut_slices_swapped", L, """        unsafe { (slice_assume_init_mut(front), slice_assume_init_mut(back)) }""", """        unsafe { (slice_assume_init_mut(back), slice_assume_init_mut(front)) }""", ["C07:VIEW2"])
 mut("iter_mut_next_back_right_first", I, """        if let Some(item) = slice_take_last_mut(&mut self.left) {
             Some(item)
         } else if let Some(item) = slice_take_last_mut(&mut self.right) {""", """        if let Some(item) = slice_take_last_mut(&mut self.right) {
@@ -202,6 +202,10 @@ mut("term_fill_spare_with_le", L, """        while self.size < N {
             self.push_back(f());""", """        while self.size <= N {
             self.push_back(f());""", ["C11:TERM1"])
 mut("term_backfill_no_decrement", D, """            remaining -= copy_len;""", """            let _ = copy_len;""", ["C11:TERM1"])
+mut("view_back_off_by_one", L, """            let (back, front) = self.items.split_at(start);
+            (front, &back[..end])""", """            let (back, front) = self.items.split_at(start);
+            (front, &back[..end + 1])""", ["C07:VIEW2", "C04:VIEW2"])
+mut("view_uninit_wrong_region", L, """            (&mut self.items[end..start], &mut [][..])""", """            (&mut self.items[start..end], &mut [][..])""", ["C04:VIEW2"])
 mut("eq_mut_array_self_recursion", L, """    fn eq(&self, other: &&'a mut [U; M]) -> bool {
         self == *other
     }""", """    fn eq(&self, other: &&'a mut [U; M]) -> bool {
